@@ -232,7 +232,11 @@ CLAIMED = {
              "key (lexer_cache_transparent). Tie: random skeletons unparsed by the Lean reference into 8 delimiter sets x 4 "
              "trim/lstrip settings and rendered through Environment / Template(...) / overlay / overlay chains, interleaved; "
              "60-200 further configurations cycle the caches and the first environments are re-checked; whole-line tags and "
-             "comments rewritten as line statements/comments (3 prefix sets; lines end in LF, CRLF, lone CR or a mixture); "
+             "comments rewritten as line statements/comments (3 prefix sets; lines end in LF, CRLF, lone CR or a mixture; a "
+             "third of the statements keep a ( [ { open across 1-3 line breaks: nested brackets, strings holding brackets / "
+             "prefixes / escapes, an operator spelled like a prefix at a continuation start, colon or tokens after the closing "
+             "bracket; line form == block-tag form under trim+lstrip and real tokens == Lean lexer model, whose step "
+             "function carries the bracket-balancing stack); "
              "skeleton texts, raw bodies and probe sources carry all three line breaks. Environment histories (harness/envways.py): for "
              "4+ root option sets and every override set (each of trim_blocks, lstrip_blocks, newline_sequence, "
              "keep_trailing_newline alone, all 11 combinations, line prefixes both/one/removed, delimiter sets, mixtures, "
